@@ -103,8 +103,27 @@ def parseScript : List String → Option (List (Frame SC) × Tail)
 
 def chunkName (b : Bytes) : String := String.ofList (b.map Char.ofNat)
 
+def probeOf (beh : String) : Probe := if beh = "zero" then zeroProbe else directProbe
+
+def framesAnswer (probe : Probe) (hdr key : String) (script : List String) : String :=
+    let hk : Option (Nat × Nat) := match hdr with
+      | "A" => some (1, 1) | "B" => some (2, 2) | "Am" => some (3, 1) | _ => none
+    let kOk : Option Bool := match key with | "R" => some true | "W" => some false | _ => none
+    match hk, kOk, parseScript script with
+    | some (hh, k), some right, some (fs, tail) =>
+      match readFramesVia sym (if right then k else 0) hh probe 0 fs tail with
+      | .ok ps => if ps.isEmpty then "ok -" else "ok " ++ ".".intercalate (ps.map chunkName)
+      | .error e => "err " ++ e.name
+    | _, _, _ => "bad-op"
+
 def stepFrames (_ : Unit) (ts : List String) : Unit × String :=
   match ts with
+  | "framesr" :: beh :: hdr :: key :: script =>
+    if ¬ ["plain", "dataerr", "onebyte", "half", "zero", "timeout"].contains beh then ((), "bad-op")
+    else
+      let ans := framesAnswer (probeOf beh) hdr key script
+      -- a transient read error (second Read call) aborts the reader wherever it strikes
+      ((), if beh = "timeout" ∧ ans ≠ "bad-op" then "err transient" else ans)
   | "frames" :: hdr :: key :: script =>
     let hk : Option (Nat × Nat) := match hdr with
       | "A" => some (1, 1) | "B" => some (2, 2) | "Am" => some (3, 1) | _ => none
